@@ -71,6 +71,7 @@ theorem C15_step_cache_ok (w : World.World) (op : Op) (h : CacheOK w) : CacheOK 
   case cacheClear => intro e he; simp at he
   case warm => exact C15_fill_ok _ _ h
   case toDict => exact h
+  case toDictObj => exact C15_fill_ok _ _ h
   case newDesc => split; exact h; split; exact h; exact hput_d _ _ _ (hfill _ _ _ h)
   case descParse => split; exact h; split; exact h; split; exact h; exact hput_d _ _ _ (hfill _ _ _ h)
   case descParseTracts => split; exact h; split; exact h; exact h
